@@ -300,6 +300,13 @@ class H2Protocol:
                 # the data must have been written before the stream is
                 # considered finished (and the connection possibly closed).
                 await buffer.wait_closed()
+                stream = self.streams.get(event.stream_id)
+                if getattr(stream, "state", None) is ASGIWebsocketState.HTTPCLOSED:
+                    # A WebSocket handshake the app has refused with a
+                    # response of its own, now complete: the stream is over
+                    # (it does not say so itself, an app that waits for its
+                    # disconnect message would wait for ever).
+                    await self.stream_send(StreamClosed(stream_id=event.stream_id))
             elif isinstance(event, Trailers):
                 # Trailers must carry END_STREAM (h2 otherwise raises after having
                 # advanced the HPACK encoder) and must follow the buffered body.
